@@ -338,6 +338,24 @@ def job_dr(ctx, iq, ia):
                 else:
                     ctx.seen(('dr', fname, qn, an, rate, dt))
                 ctx.outcome(('dr', fname, tuple(np.round(q, 9))))
+            # results KEPT by the caller while it goes on calling (a list of predictions for several attitudes, two interleaved tracks): each is
+            # still the step of ITS OWN attitude after the later calls (raw return values are kept, not copies)
+            if rate > 0.0:
+                starts = [q0.copy(), ri.first_order(q0, w, dt), ri.first_order(ri.first_order(q0, w, dt), -0.5 * w, dt), np.array([1.0, 0.0, 0.0, 0.0])]
+                raw_steppers = [('Madgwick.updateIMU', lambda q: madg.updateIMU(q, w.copy(), Z.copy(), dt=dt), False), ('Mahony.updateIMU', lambda q: mah.updateIMU(q, w.copy(), Z.copy(), dt=dt), False),
+                                ('AQUA.updateIMU', lambda q: aqua.updateIMU(conj(q), w.copy(), Z.copy(), dt=dt), True), ('EKF.f', lambda q: ekf.f(q, w.copy(), dt), False),
+                                ('ROLEQ.attitude_propagation', lambda q: roleq.attitude_propagation(q, w.copy(), dt), False)]
+                for fname, fn_raw, is_conj in raw_steppers:
+                    kept = [fn_raw(q_.copy()) for q_ in starts]
+                    for q_, r_ in zip(starts, kept):
+                        got = _arr(r_)
+                        if got.shape == (4,):
+                            got = got / np.sqrt((got * got).sum())
+                            if is_conj:
+                                got = conj(got)
+                        dd = ri.sdist(got, ri.first_order(q_, w, dt)) if got.shape == (4,) else np.inf
+                        ctx.expect(dd <= TOL_DR, f'{fname}: a prediction kept by the caller is still the step of its own attitude after later calls on the same object', key, dd, 0.0, TOL_DR)
+                ctx.cls('dr:kept-results')
             # history on one object: a call with an explicit dt, then a call WITHOUT dt -> the second call uses the configured Dt
             if rate > 0.0:
                 for fname, mk, is_conj in (('Madgwick', lambda: Madgwick(Dt=0.02), False), ('Mahony', lambda: Mahony(Dt=0.02), False), ('AQUA', lambda: AQUA(Dt=0.02), True)):
